@@ -10,6 +10,8 @@ def handle (line : String) : String :=
   | "tog" :: args => Andes.Events.handleTog args
   | "addr" :: args => Andes.Address.handleAddr args
   | "req" :: args => Andes.Address.handleReq args
+  | "gval" :: args => Andes.Address.handleGval args
+  | "dsel" :: args => Andes.Address.handleDsel args
   | _ => "bad-op"
 
 partial def loop (h : IO.FS.Stream) : IO Unit := do
